@@ -306,17 +306,24 @@ Section MovingLib.
       map eblk evN = map (fun sg => eb (sent sg)) (unsent longest) /\ Forall (fun e => estep e = SNew) evN /\
       store (db s3) = mark_all (store (db s1)) (unsent longest) /\
       extra (db s3) = extra (db s1) /\ libref (db s3) = libref (db s1) /\
-      last_sent s3 = match rev (unsent longest) with sg :: _ => Some (eb (sent sg)) | [] => last_sent s1 end.
+      last_sent s3 = match rev (unsent longest) with sg :: _ => Some (eb (sent sg)) | [] => last_sent s1 end /\
+      Forall (fun e => elib e = cursor_lib s1) (evU ++ evR ++ evN).
   Proof.
     intros Hne. unfold process_tail. rewrite Hundo, Hnew.
-    destruct (process_blocks_ok cfg Hnofail b undos SUndo junc s1) as (sa & evU & -> & (Ha1 & Ha2 & Ha3) & HmU & HsU).
-    cbn [negb].
-    destruct (process_blocks_ok cfg Hnofail b redos SNew None sa) as (sb & evR & -> & (Hb1 & Hb2 & Hb3) & HmR & HsR).
-    cbn [negb].
+    destruct (process_blocks_ok cfg Hnofail b undos SUndo junc s1) as (sa & evU & HeqU & (Ha1 & Ha2 & Ha3) & HmU & HsU).
+    rewrite HeqU. cbn [negb].
+    destruct (process_blocks_ok cfg Hnofail b redos SNew None sa) as (sb & evR & HeqR & (Hb1 & Hb2 & Hb3) & HmR & HsR).
+    rewrite HeqR. cbn [negb].
     unfold process_new_blocks. destruct longest as [|b0 lrest] eqn:Hlong; [congruence|]. rewrite <- Hlong in *.
     destruct (process_new_loop_ok cfg Hnofail Hnew (seg_ref (last longest b0)) longest sb []) as
       (s3 & evN & Hrun & HmN & HsN & Hst & Hex & Hlib & Hlls & Hlast).
     cbn [app] in Hrun. rewrite Hlong in Hrun at 1. rewrite <- Hlong in Hrun. rewrite Hrun. cbn [negb].
+    assert (Hcl : Forall (fun e => elib e = cursor_lib s1) (evU ++ evR ++ evN)).
+    { assert (Ca : cursor_lib sa = cursor_lib s1) by (unfold cursor_lib; rewrite Ha1, Ha3; reflexivity).
+      assert (Cb : cursor_lib sb = cursor_lib s1) by (unfold cursor_lib; rewrite Hb1, Hb3, Ha1, Ha3; reflexivity).
+      apply Forall_app. split; [exact (pb_elib _ _ _ _ _ _ _ _ _ HeqU)|]. apply Forall_app. split.
+      - rewrite <- Ca. exact (pb_elib _ _ _ _ _ _ _ _ _ HeqR).
+      - rewrite <- Cb. apply pnl_elib in Hrun. destruct Hrun as (evs0 & E0 & Hall). cbn [app] in E0. subst evs0. exact Hall. }
     rewrite Hb1, Ha1 in Hst, Hex, Hlib. rewrite Hb2, Ha2 in Hlast.
     exists s3, evU, evR, evN. split; [|repeat split; assumption].
     unfold lib_tail. destruct (last_sent s3) as [ls|]; [|reflexivity].
@@ -460,7 +467,8 @@ Section MovingLib.
       keys (store (db s3)) = keys (store (db s1)) /\ last_sent s3 = Some b /\
       libref (db s3) = libref (db s1) /\
       map eblk evU = map eb (rev Uh) /\ Forall (fun e => estep e = SUndo) evU /\
-      Forall (fun e => estep e = SNew) evRN.
+      Forall (fun e => estep e = SNew) evRN /\
+      Forall (fun e => elib e = cursor_lib s1) (evU ++ evRN).
   Proof.
     intros HI Hb Hc HP HC HS.
     pose proof HI as [Hd Hfin Hflast Hh]. pose proof Hd as [Hnd HU Hcoh Hnum Hextra Hlc].
@@ -474,7 +482,7 @@ Section MovingLib.
     assert (Hun : filter (fun e => negb (esent e)) q = Ru ++ [en]).
     { unfold q. rewrite HP, HR, !filter_app, (filter_unsent_nil C HC), <- filter_app, F2. reflexivity. }
     destruct (process_tail_first s1 b (rev Uh) (filter esent R) junc (map seg_of q) fi) as
-      (s3 & evU & evR & evN & Hrun & HmU & HsU & HmR & HsR & HmN & HsN & Hst & Hex & Hlr & Hls).
+      (s3 & evU & evR & evN & Hrun & HmU & HsU & HmR & HsR & HmN & HsN & Hst & Hex & Hlr & Hls & Hcl).
     { unfold q. destruct pP; discriminate. }
     exists s3, evU, (evR ++ evN). split; [exact Hrun|].
     pose proof (dbinv_marked (db s1) (db s3) (bid b) q Hd Hc Hst Hex Hlr) as Hd3.
@@ -956,7 +964,7 @@ Section MovingLib.
       + unfold sent_chain_switch_segments in Hsw. rewrite Heq, N.eqb_refl in Hsw. injection Hsw as <- <- <-.
         rewrite Heq in HcH. pose proof (chain_det _ _ _ _ _ HcH HcP0) as ->.
         destruct (trigger_first s1 Fin S b pP pP [] [] None None HI1 Hb Hc) as
-          (s3 & evU & evRN & Hrun & Happ & HI3 & Hk3 & Hls3 & Hlr3 & HmU & HsU & HsRN).
+          (s3 & evU & evRN & Hrun & Happ & HI3 & Hk3 & Hls3 & Hlr3 & HmU & HsU & HsRN & _).
         * rewrite app_nil_r. reflexivity.
         * exact HsH.
         * rewrite app_nil_r. exact HS.
@@ -967,7 +975,7 @@ Section MovingLib.
         { intros f t e0 Hu He0. exact (tail_disjoint' (db s) pP (bparent b) Hdb HcP0 f t e0 Hu He0). }
         rewrite Hsc in Hsw. injection Hsw as <- <- <-.
         destruct (trigger_first s1 Fin S b pP C R Uh j None HI1 Hb Hc HP) as
-          (s3 & evU & evRN & Hrun & Happ & HI3 & Hk3 & Hls3 & Hlr3 & HmU & HsU & HsRN).
+          (s3 & evU & evRN & Hrun & Happ & HI3 & Hk3 & Hls3 & Hlr3 & HmU & HsU & HsRN & _).
         * rewrite HH in HsH. apply Forall_app in HsH. tauto.
         * rewrite HS, HH. reflexivity.
         * fold en in Hrun. rewrite Hrun. eapply step_finish; eauto; try congruence; try (rewrite map_app, app_assoc, rev_app_distr; discriminate).
@@ -980,7 +988,7 @@ Section MovingLib.
         clear -G. induction pP as [|h t IHt]; cbn [filter]; [reflexivity|].
         rewrite (G h (or_introl eq_refl)). apply IHt. intros x Hx. apply G. right. exact Hx. }
       destruct (trigger_first s1 [] [] b pP [] pP [] None None HI1 Hb Hc eq_refl (Forall_nil _) eq_refl) as
-        (s3 & evU & evRN & Hrun & Happ & HI3 & Hk3 & Hls3 & Hlr3 & HmU & HsU & HsRN).
+        (s3 & evU & evRN & Hrun & Happ & HI3 & Hk3 & Hls3 & Hlr3 & HmU & HsU & HsRN & _).
       cbn [rev] in Hrun. rewrite Hfil in Hrun. fold en in Hrun. rewrite Hrun.
       eapply step_finish; eauto; try congruence; try (rewrite map_app, app_assoc, rev_app_distr; discriminate).
       apply map_eq_nil in HmU. subst evU. intros e0 [].
